@@ -47,7 +47,8 @@ Section P.
                      | |- @nil _ = @nil _ => reflexivity
                      end.
   Ltac fin := ring [(half_ok R) (s2_ok R)].
-  Ltac mring := cbv; pushc; meq; fin.
+  Ltac unf := cbv -[K k0 k1 kadd kmul ksub kopp conj half s2].
+  Ltac mring := unf; pushc; meq; fin.
 
   (* --- coefficient vs rate: D[c A] = (c conj c) D[A] --------------------------------------------- *)
   Lemma lind_scale2 c a b d e r00 r01 r10 r11 :
@@ -115,11 +116,8 @@ Section P.
     adj R 2 (comm R 2 iu (gen2 R h00 h01 h10 h11) (gen2 R r00 r01 r10 r11))
     = comm R 2 iu (gen2 R h00 h01 h10 h11) (adj R 2 (gen2 R r00 r01 r10 r11)).
   Proof.
-    intros Hi Hh. cbv in Hh. injection Hh as E00 E01 E10 E11.
-    cbv. pushc. rewrite Hi, E00, E01, E10, E11. meq; fin.
+    intros Hi Hh. cbv -[K k0 k1 kadd kmul ksub kopp conj half s2] in Hh. injection Hh as E00 E01 E10 E11.
+    unf. pushc. rewrite Hi, E00, E01, E10, E11. meq; fin.
   Qed.
 
-  (* --- independence: on a bipartite register A (x) B a collapse operator acting on B alone does not move the
-         reduced state of A, and one acting on A alone moves it by its own local dissipator -------------- *)
-  Definition g4 (r : list (mat R)) : mat R := nth 0 r [].
 End P.
